@@ -538,6 +538,10 @@ pub fn isprime64(p: u64) -> bool {
     if p < *fbase::SMALL_PRIMES.last().unwrap() {
         return fbase::SMALL_PRIMES[..].contains(&p);
     }
+    // Montgomery arithmetic is only for odd numbers.
+    if p % 2 == 0 {
+        return false;
+    }
     // Compute auxiliary numbers for modular arithmetic.
     let pinv = arith_montgomery::mg_2adic_inv(p);
     let r1 = 0_u64.wrapping_sub(p) % p; // 2^64 % p == (2^64-p) % p
